@@ -134,6 +134,23 @@ static void put_result (FILE *f, const eav_result_t *r)
 #endif
 }
 
+/* the three IDN back ends behind one calling convention */
+#ifdef HAVE_IDNKIT
+static idn_resconf_t g_ctx;
+extern long verif_resconf_created, verif_resconf_destroyed, verif_resconf_live, verif_resconf_bad_destroy;
+static eav_result_t *email6531 (const char *e, size_t l, bool t) { return is_6531_email (g_ctx, IDN_ENCODE_REGIST, e, l, t); }
+static int utf8dom (int *r, const char *s, const char *e, bool t) { return is_utf8_domain (g_ctx, IDN_ENCODE_REGIST, r, s, e, t); }
+#define BACKEND "idnkit"
+#else
+static eav_result_t *email6531 (const char *e, size_t l, bool t) { return is_6531_email (e, l, t); }
+static int utf8dom (int *r, const char *s, const char *e, bool t) { return is_utf8_domain (r, s, e, t); }
+#ifdef HAVE_LIBIDN
+#define BACKEND "idn"
+#else
+#define BACKEND "idn2"
+#endif
+#endif
+
 typedef eav_result_t *(*email_f) (const char *, size_t, bool);
 static email_f mode_fn (int mode)
 {
@@ -141,7 +158,7 @@ static email_f mode_fn (int mode)
     case 822: return is_822_email;
     case 5321: return is_5321_email;
     case 5322: return is_5322_email;
-    default: return is_6531_email;
+    default: return email6531;
     }
 }
 static int mode_rfc (int mode)
@@ -215,6 +232,10 @@ static void run_history (FILE *out, char *script)
         }
     }
     /* the script is responsible for ending with `f`; LeakSanitizer checks the rest */
+#ifdef HAVE_IDNKIT
+    fprintf (out, ";R%ld,%ld,%ld,%ld", verif_resconf_created, verif_resconf_destroyed, verif_resconf_live, verif_resconf_bad_destroy);
+    verif_resconf_created = verif_resconf_destroyed = verif_resconf_live = verif_resconf_bad_destroy = 0;
+#endif
     free (eav);
     inject_rc = 0;
 }
@@ -239,7 +260,11 @@ int main (int argc, char **argv)
 #ifdef EAV_EXTRA
     extra = 1;
 #endif
-    fprintf (lean, "B %d %d %d %d\n", rfc20, rfc5322, us, extra);
+    fprintf (lean, "B %d %d %d %d %s\n", rfc20, rfc5322, us, extra, BACKEND);
+#ifdef HAVE_IDNKIT
+    idn_resconf_create (&g_ctx);
+    verif_resconf_created = verif_resconf_destroyed = verif_resconf_live = 0;
+#endif
 
     char *line = NULL; size_t cap = 0; ssize_t n;
     long lineno = 0;
@@ -280,7 +305,7 @@ int main (int argc, char **argv)
         } else if (!strcmp (tok[0], "U") && nt == 3) {
             char *p = joined (tok[2], "00", &ls);
             int r = 0;
-            int rc = is_utf8_domain (&r, p, p + ls, tok[1][0] == '1');
+            int rc = utf8dom (&r, p, p + ls, tok[1][0] == '1');
             fprintf (out, "%d %d", rc, rc == -EEAV_IDN_ERROR ? r : 0); free (p);
         } else if (!strcmp (tok[0], "E") && nt == 4) {
             char *p = joined (tok[3], "00", &ls);
@@ -349,7 +374,7 @@ int main (int argc, char **argv)
                 if (rc == 0) {
                     const char *d = at + 1;
                     if (*d != '[') {
-                        if (mode == 6531) rc = is_utf8_domain (&idn, d, end, tld);
+                        if (mode == 6531) rc = utf8dom (&idn, d, end, tld);
                         else {
                             rc = is_ascii_domain (d, end);
                             if (rc == 0 && tld) {
